@@ -156,6 +156,10 @@ pub fn main(args: &[String]) -> i32 {
         for s in h["steps"].as_array().unwrap() {
             let ret = if s["op"] == "call" {
                 run_call(s, &cwd)
+            } else if s["op"] == "restart" {
+                // a new process working on the directory the previous one left behind
+                ts_rs::verif::reset_export_registry();
+                "Fs".to_string()
             } else {
                 match apply_fs_step(s, &root) {
                     Ok(()) => "Fs".to_string(),
